@@ -7,6 +7,12 @@ CLAIMS = {
         'note': 'Trusts clang-14 AST/CFG, tools/yrx.cc, the exemption table UNDEF_EXEMPT in yrsa/rules/C04.py and the read_* bounds-checked-reader idiom. One build configuration.',
         'technique': 'static exhaustiveness + writer/reader width agreement + undefined-operand typestate over clang AST/CFG facts; doc-vs-grammar table comparison',
     },
+    'C16': {
+        'text': 'Decides the error discipline of every library function, on every path including those no injection scenario reaches: (R16.1) no result of a function that can report ERROR_INSUFFICIENT_MEMORY (bottom-up return-code summaries, 253 functions, ~1740 call sites) is dropped or overwritten before being tested; (R16.2) every result of an allocating function (~280 sites incl. pool allocators) is NULL-tested on every path before it is dereferenced or left in a non-local slot; (R16.3) no p = yr_realloc(p); (R16.4) every local that owns an allocation (~190) is released or handed over on every path to a return, with success-only transfer through fallible storing callees; (R16.5) the library allocates only through mem.c (flex/vendored exceptions listed). Decides these necessary structural clauses, not the outcome of a particular injection; module field setters are exempt by the module contract (counted).',
+        'design_ref': 'DESIGN.md section 4, C16 (R16.1-R16.5)',
+        'note': 'Trusts clang-14 AST/CFG, tools/yrx.cc, the summaries in yrsa/callgraph.py, the enumerated idioms (FAIL_ON_ERROR family, out-parameter NULL test, result-accumulating chains, correlated flag variables) and the exception table OWNERSHIP_EXCEPTIONS. Intraprocedural typestate with callee summaries; aliasing through stores is treated as escape (fewer reports, never more).',
+        'technique': 'static error-discipline analysis: return-code summaries + unchecked->checked and owned->released typestate over clang CFG, path-sensitive on correlated conditions',
+    },
     'C12': {
         'text': 'Decides, for every constant-folding grammar action, that the folder applies the same C operator and the same operand-value guards as the VM handler of the opcode the action emits; that no compiler-layer code reads a run-time object value; that externals are looked up in the scanner-owned table; and that shortcut flags are cleared on every path that uses a string otherwise. These are necessary structural clauses of C12, decided on all sites; verdict equality itself is not decided.',
         'design_ref': 'DESIGN.md section 4, C12 (R12.1-R12.6)',
